@@ -9,6 +9,7 @@ p = subprocess.run(['cargo', 'test', '--workspace', '--no-fail-fast', '--offline
                    stdout=subprocess.PIPE, stderr=subprocess.STDOUT, text=True)
 out = p.stdout
 passed, failed = set(), set()
+totals = [0, 0]
 cur = None
 for ln in out.split('\n'):
     m = re.search(r'Running (?:unittests )?(\S+) \(target/debug/deps/([\w\-]+)-[0-9a-f]+\)', ln)
@@ -19,10 +20,20 @@ for ln in out.split('\n'):
     if m:
         cur = 'doctest:' + m.group(1)
         continue
-    m = re.match(r'test (\S+)(?: - .*)? \.\.\. (ok|FAILED|ignored)', ln)
-    if m and cur:
-        name = cur + '::' + m.group(1)
-        (passed if m.group(2) == 'ok' else failed if m.group(2) == 'FAILED' else set()).add(name)
+    if cur and ln.startswith('test '):
+        # parallel test threads can interleave: "test a ... test b ... ok" followed by a bare "ok"
+        names = re.findall(r'test (.+?) \.\.\. ', ln)
+        verdicts = re.findall(r'\.\.\. (ok|FAILED|ignored)', ln)
+        for i, nm in enumerate(names):
+            v = verdicts[i] if i < len(verdicts) else 'ok?'
+            name = cur + '::' + nm
+            if v == 'FAILED':
+                failed.add(name)
+            elif v in ('ok', 'ok?'):
+                passed.add(name)
+    m = re.match(r'test result: (\w+)\. (\d+) passed; (\d+) failed', ln)
+    if m:
+        totals[0] += int(m.group(2)); totals[1] += int(m.group(3))
 def norm(s):
     return s.replace('-', '_')
 pn = {norm(x) for x in passed}
@@ -38,9 +49,11 @@ def present(x):
     m = re.search(r'\(line \d+\)', x)
     return bool(m and any(m.group(0) in y for y in passed))
 missing = sorted(x for x in stable if not present(x))
-print('passed=%d failed=%d stable=%d stable_missing=%d' % (len(passed), len(failed), len(stable), len(missing)))
+print('passed=%d failed=%d (cargo totals: %d passed, %d failed) stable=%d stable_missing=%d' % (len(passed), len(failed), totals[0], totals[1], len(stable), len(missing)))
 for x in missing[:40]:
     print('  MISSING/FAILED:', x)
 for x in sorted(failed)[:20]:
     print('  failed:', x)
-sys.exit(0 if not missing else 1)
+flaky = set(base.get('flaky', []))
+real_failed = [x for x in failed if x not in flaky]
+sys.exit(0 if (not missing and not real_failed and totals[1] <= len(failed)) else 1)
